@@ -122,7 +122,7 @@ def run_shard(rec, tier, seed, shard, nshards):
             if run % 3 == 2:
                 # production regime: hundreds of posterior samples, budget far below C(n,3); a draw WITH
                 # replacement would show here as a birthday collision (m^2/2N expected duplicates)
-                n_thetas = int(rng.choice([60, 100, 150, 300]))
+                n_thetas = int(rng.choice([60, 100, 150, 300, 1700, 2600, 4000]))  # C(n,3) up to 1e10
                 total = comb(n_thetas, 3)
                 budget = int(rng.choice([300, 1000, 5000]))
                 while budget * budget < 3 * total:
@@ -143,14 +143,25 @@ def run_shard(rec, tier, seed, shard, nshards):
             np.fill_diagonal(d, 0.0)
             del calls[:]
             rec.case(("scorer", n_thetas, budget))
+            drec = RecordingDistances.wrap(d)
             try:
-                G.dbal_fast_gauss_scoring_vectorized(preds, var, d, np.random.default_rng(int(rng.integers(0, 2**31))), max_combos=budget)
+                G.dbal_fast_gauss_scoring_vectorized(preds, var, drec, np.random.default_rng(int(rng.integers(0, 2**31))), max_combos=budget)
             except Exception as e:
                 rec.violation("C15/scorer/raises", "kernel raised %r for n_thetas=%d budget=%d" % (e, n_thetas, budget), {"n_thetas": n_thetas, "budget": budget})
                 continue
+            # the triples are read at the kernel's boundary - which entries of the distance matrix it looked up - and,
+            # when the kernel unranks through get_combination_at_sorted_index, from that function's results as well
+            seen = drec.triples()
+            via_unranker = [c[3] for c in calls]
+            if seen is None and not via_unranker:
+                rec.count("scorer_runs_unobservable")  # neither channel saw anything: no verdict from this run
+                continue
+            if seen is not None and via_unranker:
+                rec.count("scorer_runs_both_channels")
+                rec.check(sorted(seen) == sorted(via_unranker), "C15/scorer/unranked-triples-not-the-ones-used", lambda: "the kernel unranked %d triples but looked up the distances of %d other ones (n=%d budget=%d)" % (len(via_unranker), len(set(seen) ^ set(via_unranker)), n_thetas, budget), {"n_thetas": n_thetas, "budget": budget})
+            triples = seen if seen is not None else via_unranker
             rec.count("scorer_runs")
-            rec.count("scorer_triples", len(calls))
-            triples = [c[3] for c in calls]
+            rec.count("scorer_triples", len(triples))
             want = min(total, budget)
             rec.check(len(triples) == want, "C15/scorer/wrong-number-of-triples", lambda: "%d triples used, expected %d (n=%d budget=%d)" % (len(triples), want, n_thetas, budget), {"n_thetas": n_thetas, "budget": budget})
             rec.check(len(set(triples)) == len(triples), "C15/scorer/duplicate-triples", lambda: "%d triples, %d distinct (n=%d budget=%d)" % (len(triples), len(set(triples)), n_thetas, budget), {"n_thetas": n_thetas, "budget": budget})
@@ -183,6 +194,42 @@ def run_shard(rec, tier, seed, shard, nshards):
             # the same counting run through the production entry point: a GaussianDBALScorer object configured with
             # this budget, a real Screen, a ThetaHolder of stub samples and a complete ChunkedDistanceMatrix
             scorer_object_counting_run(rec, rng, G, n_thetas, budget, total)
+
+
+class RecordingDistances(np.ndarray):
+    """A distance matrix that remembers which (row, column) index arrays were looked up."""
+
+    @classmethod
+    def wrap(cls, d):
+        o = np.asarray(d, dtype=float).view(cls)
+        o.lookups = []
+        return o
+
+    def __array_finalize__(self, obj):
+        self.lookups = getattr(obj, "lookups", [])
+
+    def __getitem__(self, key):
+        if isinstance(key, tuple) and len(key) == 2:
+            a, b = np.asarray(key[0]), np.asarray(key[1])
+            if a.ndim == 1 and a.shape == b.shape and a.dtype.kind in "iu" and b.dtype.kind in "iu":
+                self.lookups.append((a.astype(np.int64).copy(), b.astype(np.int64).copy()))
+        return np.asarray(np.ndarray.__getitem__(self.view(np.ndarray), key))
+
+    def triples(self):
+        """the triples whose three pairwise distances were looked up, or None when the look-ups do not have that shape"""
+        L = self.lookups
+        if len(L) != 3 or len({len(a) for a, _ in L}) != 1:
+            return None
+        m = len(L[0][0])
+        out = []
+        for i in range(m):
+            members = {int(L[j][k][i]) for j in range(3) for k in range(2)}
+            pairs = {frozenset((int(L[j][0][i]), int(L[j][1][i]))) for j in range(3)}
+            if len(members) != 3 or len(pairs) != 3:
+                out.append(tuple(sorted((int(L[j][k][i]) for j in range(3) for k in range(2)), reverse=True)))  # malformed: reported as is
+            else:
+                out.append(tuple(sorted(members, reverse=True)))
+        return out
 
 
 def scorer_object_counting_run(rec, rng, G, n_thetas, budget, total):
